@@ -92,6 +92,8 @@ def ex_root(lv):
 
 def check(ctx):
     p = ctx.prog
+    from .C12 import DRV_OPAQUE as _DO
+    no_use_after_move(ctx, 'move.no_use_after_move', ['hep::plain', 'hep::vegas', 'hep::multi_channel', 'hep::mpi_plain', 'hep::mpi_vegas', 'hep::mpi_multi_channel'] + ['hep::chkpt_with_rng::add'], opaque=_DO, minimum=6)
     # no state survives from one call to the next in a function-local static
     no_static_state(ctx, 'state.no_static_locals')
     # no constructor of the classes this property computes with leaves a member indeterminate
